@@ -8,6 +8,11 @@ Spec (all JSON):
    "dcq":   bool                   the disconnect is queued together with the last delivered read (same loop pass)
    "pre":   bool                   a well-formed keep-alive request was answered on the connection before
    "psplit": bool                  the liveness probe connection sends half of its request BEFORE the hostile traffic}
+  base may carry "hf": index of the Host line (plain / folded variants).
+
+Every delivery (read or disconnect + settle) runs under vlib.c14_helpers.Watchdog: CPU-time limit WD_LIMIT (wall-clock
+backstop 6x); a case whose delivery had to be interrupted is run a second time with twice the limit and only then reported
+(clause loop-blocked).
 
 Interpreter: socket-less rig (FakeServer + HTTP + Dispatcher + controllers), one read event per piece, settle after each.
 When the component asks for the connection to be closed the harness does what the server component does: no further
@@ -59,6 +64,13 @@ ENUM_SEEDS = [
     'GET /badhdr HTTP/1.1\r\nHost: a\r\n\r\n',
     'GET / HTTP/0.12\r\nHost: a\r\n\r\n',
     'GET / HTTP/1.1\r\nHost: a\r\nCookie: a="\\u20ac"\r\n\r\n',
+    # hostile characters on a folded continuation line of a header whose value is echoed (Set-Cookie, Location)
+    'GET /echo HTTP/1.1\r\nHost: a\r\nCookie: a="b\r\n \\r\\nX y"\r\n\r\n',
+    'GET / HTTP/1.1\r\nHost: a\r\nCookie: a="b\r\n\t\\u20ac"\r\n\r\n',
+    'GET /echo/../echo HTTP/1.1\r\nHost: a\r\n \x00b\r\n\r\n',
+    # long header values with a NUL / an escape outside latin-1 at / near the end
+    'GET / HTTP/1.1\r\nHost: a\r\nUser-Agent: Mozilla/5.0 (X11; Linux x86_64; rv:128.0) Gecko/20100101 Firefox/128.0\x00\r\n\r\n',
+    'GET /reflect HTTP/1.1\r\nHost: a\r\nX-Custom: ' + '0123456789abcdef' * 4 + '\\u20acxy\r\n\r\n',
 ]
 
 
@@ -105,6 +117,14 @@ class Obs(BaseComponent):
 MAX_TICKS = 400
 MAX_QUEUE = 2000
 
+# One delivery (fire + settle) normally costs < 5 ms of CPU. WD_LIMIT seconds of CPU time of this process (not wall clock: load
+# on the machine does not count) before the watchdog interrupts it; the case is then repeated with twice the limit before
+# anything is reported. Once a process has CONFIRMED a blocked loop (both runs), later cases of that process (= shrinking
+# of the replay; the verdict is settled) use WD_CONFIRMED without a second run.
+WD_LIMIT = 20.0
+WD_CONFIRMED = 5.0
+WD = H.Watchdog()
+
 
 def _settle(rig):
     """tick() until quiescent; give up (rig.stuck) after MAX_TICKS passes or when the queue explodes.
@@ -115,6 +135,8 @@ def _settle(rig):
     root = rig.srv
     n = 0
     while not driver.quiescent(root):
+        if WD.fired:
+            return -1       # the watchdog interrupted a handler: the caller reports it
         if n >= MAX_TICKS or len(root._queue) > MAX_QUEUE:
             rig.stuck = True
             return -1
@@ -146,13 +168,19 @@ def _retained(http, sock):
 
 class C14(Prop):
     id = 'C14'
-    rule = ('grammar-generated well-formed requests (method x target x version x 0-5 headers incl. folded ones x '
+    rule = ('grammar-generated well-formed requests (method x target x version x plain/folded Host x 0-5 headers incl. folded '
+            '(also folded Cookie / X-Custom, whose values are echoed) and long (64-190 characters) ones x '
             'no body/Content-Length/chunked with extensions and trailers x content types; controllers: hello, echo, one that '
-            'raises, one whose response cannot be encoded) changed by 1-3 of 41 mutation operators (request line, headers, '
+            'raises, one that copies a request header into the response, one whose response cannot be encoded) changed by 1-3 of '
+            '43 mutation operators (request line, headers, '
             'oversized parts, Content-Length, chunk framing, backslash escapes, NUL, high bytes, TLS/SSL hellos, truncation, '
-            'generic byte edits), delivered as 1-5 reads or byte-wise, disconnect after any read (also queued in the same loop '
+            'generic byte edits; NUL / escaped CR LF NUL (hex, octal) / escapes outside latin-1 / raw high bytes on a folded '
+            'continuation line of Cookie, Host (+ non-canonical path), X-Custom or any header; the same fragments at or within 3 '
+            'characters of the end of a 30-200 character value), delivered as 1-5 reads or byte-wise, disconnect after any read '
+            '(also queued in the same loop '
             'pass), optionally after an answered keep-alive request, liveness probe connection optionally half-open during '
-            'the hostile traffic; exhaustive part: every truncation of 22 fixed requests (one read + disconnect) and every '
+            'the hostile traffic; every delivery under a CPU-time watchdog (20 s, case repeated with 40 s before clause '
+            'loop-blocked is reported); exhaustive part: every truncation of 27 fixed requests (one read + disconnect) and every '
             'two-read split of them with the disconnect after the first part; '
             'non-trivial = the bytes differ from the well-formed seed and the connection did not get a 200 as its first '
             'answer (4xx/5xx/3xx, nothing, or plain close); distinct = distinct spec hash')
@@ -166,8 +194,13 @@ class C14(Prop):
     budget = {'quick': (1500, 4), 'thorough': (9000, 16)}
     enum_procs = 8
 
+    watchdog_wall = True        # the atheris entry point turns the wall-clock backstop off (libFuzzer owns SIGALRM)
+    _confirmed_blocked = False
+
     def setup(self):
         driver.quiet_process()
+        # every process that executes cases (the runner calls setup() in the parent and in each forked pool worker)
+        WD.install(wall=self.watchdog_wall)
 
     # ------------------------------------------------------------------ generation
     def strategy(self, tier):
@@ -175,8 +208,9 @@ class C14(Prop):
             'm': st.integers(0, len(H.METHODS) - 1), 't': st.integers(0, len(H.TARGETS) - 1),
             'v': st.integers(0, len(H.VERSIONS) - 1), 'h': st.lists(st.integers(0, len(H.HEADERS) - 1), max_size=4),
             'b': st.integers(0, len(H.BODY_KINDS) - 1), 'c': st.integers(0, len(H.CTYPES) - 1),
-            'p': st.integers(0, len(H.PAYLOADS) - 1), 'x': st.integers(0, 3)})
-        mut = st.tuples(st.sampled_from(H.OP_NAMES), st.integers(0, 4095), st.integers(0, 4095)).map(list)
+            'p': st.integers(0, len(H.PAYLOADS) - 1), 'x': st.integers(0, 3),
+            'hf': st.sampled_from([0] * 9 + list(range(1, len(H.HOSTS))))})
+        mut = st.tuples(st.sampled_from(H.OP_NAMES + ['h_fold_bad', 'h_long_bad'] * 2), st.integers(0, 4095), st.integers(0, 4095)).map(list)
         muts = st.one_of(st.lists(mut, min_size=1, max_size=1), st.lists(mut, min_size=1, max_size=1),
                          st.lists(mut, min_size=0, max_size=3))
         return st.fixed_dictionaries({
@@ -277,6 +311,20 @@ class C14(Prop):
 
     # ------------------------------------------------------------------ execution + oracle
     def execute(self, spec):
+        if self._confirmed_blocked:
+            return self._run(spec, WD_CONFIRMED)
+        res = self._run(spec, WD_LIMIT)
+        if res.clause != 'loop-blocked':
+            return res
+        # slowness is not a verdict: once more, with twice the limit
+        res2 = self._run(spec, 2 * WD_LIMIT)
+        if res2.clause == 'loop-blocked':
+            C14._confirmed_blocked = True
+            return res2
+        res2.classes = tuple(res2.classes) + ('watchdog:interrupted-once-then-fine-with-double-limit',)
+        return res2
+
+    def _run(self, spec, limit):
         seed = H.build(spec['base'])
         data = H.mutate(seed, spec['muts'])
         cuts = list(spec['cuts'])
@@ -304,6 +352,7 @@ class C14(Prop):
             classes.append('dc:queued')
         if spec['pre']:
             classes.append('pre-request')
+        classes.extend(H.shape_classes(b''.join(reads[:dc])))      # of the bytes that are really delivered
 
         if H.mentions_head(data):
             return Result(True, classes=classes + ['skipped:HEAD'])
@@ -322,6 +371,27 @@ class C14(Prop):
 
         since = {}
 
+        def deliver(*events):
+            """fire + settle under the watchdog. None, or the Result to return."""
+            def go():
+                for e in events:
+                    rig.srv.fire(e)
+                _settle(rig)
+            try:
+                came_back = WD.run(limit, go)
+            except KeyboardInterrupt:
+                raise
+            except BaseException as e:  # noqa: B036 - anything leaving tick() is the crash the property forbids
+                return bad('exception-escaped', 'tick() raised %s while delivering %s: %s' % (
+                    type(e).__name__, ' + '.join(x.name for x in events), str(e)[:200]))
+            if not came_back:
+                return bad('loop-blocked', 'delivering %s did not come back: interrupted after %s (this run: %g s CPU time, '
+                           'wall-clock backstop %g s; reported after a second run with twice the limit of the first); '
+                           'the event loop is blocked for every connection' % (
+                               ' + '.join(e.name for e in events), 'the CPU-time limit' if WD.fired == 'cpu' else 'the wall-clock backstop',
+                               limit, limit * WD.WALL_FACTOR))
+            return None
+
         def step(sock, chunk, also_disconnect=False, record=True):
             """Deliver one read (optionally with the disconnect queued right behind it); judge what it caused."""
             conn = since.setdefault(sock, {'since': b''})
@@ -329,16 +399,13 @@ class C14(Prop):
             nreq = len(wire.requests)
             ncl = wire.closed.count(sock)
             nfail = len(obs.failed)
-            try:
-                rig.srv.fire(read(sock, chunk))
-                if also_disconnect:
-                    rig.srv.fire(disconnect(sock))
-                    state['disconnected'] = True
-                _settle(rig)
-            except KeyboardInterrupt:
-                raise
-            except BaseException as e:  # noqa: B036 - anything leaving tick() is the crash the property forbids
-                return bad('exception-escaped', 'tick() raised %s: %s' % (type(e).__name__, str(e)[:200]))
+            if also_disconnect:
+                state['disconnected'] = True
+                v = deliver(read(sock, chunk), disconnect(sock))
+            else:
+                v = deliver(read(sock, chunk))
+            if v is not None:
+                return v
             if rig.stuck:
                 return bad('no-quiescence', 'the loop does not become quiescent after the read')
             delta = rig.output(sock)[mark:]
@@ -400,13 +467,9 @@ class C14(Prop):
                             classes.append('closed-by-server')
                             break
                 if not state['disconnected']:
-                    try:
-                        rig.srv.fire(disconnect(s))
-                        _settle(rig)
-                    except KeyboardInterrupt:
-                        raise
-                    except BaseException as e:  # noqa: B036
-                        return bad('exception-escaped', 'tick() raised %s on disconnect: %s' % (type(e).__name__, str(e)[:200]))
+                    v = deliver(disconnect(s))
+                    if v is not None:
+                        return v
                 if rig.stuck:
                     return bad('no-quiescence', 'the loop does not become quiescent after disconnect')
                 kept = _retained(http, s)
@@ -417,20 +480,16 @@ class C14(Prop):
                 nreq = len(wire.requests)
                 v = step(p, PROBE[PROBE_CUT:] if spec['psplit'] else PROBE, record=False)
                 if isinstance(v, Result):
-                    return bad('not-alive', 'probe connection: ' + v.msg[:300])
+                    return v if v.clause == 'loop-blocked' else bad('not-alive', 'probe connection: ' + v.msg[:300])
                 out = rig.output(p)
                 clause, msg, rs = H.judge_output(out)
                 if clause or len(rs) != 1 or rs[0]['status'] != 200 or rs[0]['body'] != b'hello':
                     return bad('not-alive', 'a fresh connection does not get its 200 afterwards: %r' % (out[:80],))
                 if len([q for q in wire.requests[nreq:] if q['sock'] is p]) != 1:
                     return bad('not-alive', 'probe request not dispatched exactly once')
-                try:
-                    rig.srv.fire(disconnect(p))
-                    _settle(rig)
-                except KeyboardInterrupt:
-                    raise
-                except BaseException as e:  # noqa: B036
-                    return bad('exception-escaped', 'tick() raised %s on disconnect: %s' % (type(e).__name__, str(e)[:200]))
+                v = deliver(disconnect(p))
+                if v is not None:
+                    return v
                 if _retained(http, p) or _retained(http, s):
                     return bad('state-retained', 'after both disconnects the HTTP component still holds %s' % (
                         _retained(http, p) + _retained(http, s)))
